@@ -211,3 +211,70 @@ func HarnessC15PredicateTemplate() {
 		verif.Assert(p2.String() == out, "C15/predicate/reprint-stable")
 	}
 }
+
+var c15TripleTemplates = [][2]string{
+	{"/u<", ">\t\"p\"@[]\t/u<c>"},
+	{"/u<a>\t\"", "\"@[]\t/u<c>"},
+	{"/u<a>\t\"p\"@[", "]\t/u<c>"},
+	{"/u<a>\t\"p\"@[]\t/u<", ">"},
+	{"/u<a>\t\"p\"@[]\t\"", "\"^^type:text"},
+	{"/u<a>", "\"p\"@[]\t/u<c>"},
+	{"/u<a>\t\"p\"@[]", "/u<c>"},
+	{"", "\t\"p\"@[]\t/u<c>"},
+	{"/u<a>\t\"p\"@[]\t", ""},
+	{"", ""},
+}
+
+// C15 (b): triple.Parse on valid triple text with a hole of up to N symbolic
+// 7-bit bytes (inside the subject, the predicate id, the anchor, a node or text
+// object, in place of a separator or of a whole component, and the string made
+// of the hole alone): it returns a well-formed triple or an error, never
+// panics, and what it accepts prints to text it accepts again as an equal
+// triple.
+func HarnessC15Triple() {
+	tp := c15TripleTemplates[verif.Choice("template", len(c15TripleTemplates))]
+	n := verif.Choice("len", verif.Param("N", 3)+1)
+	hole := verif.String("hole", n)
+	for i := 0; i < len(hole); i++ {
+		verif.Assume(hole[i] < 0x80)
+	}
+	s := tp[0] + hole + tp[1]
+	var t *triple.Triple
+	var err error
+	if !noPanic("C15/triple/no-panic", func() { t, err = triple.Parse(s, literal.DefaultBuilder()) }) {
+		return
+	}
+	verif.Reach("returned")
+	verif.Assert(!(t == nil && err == nil), "C15/triple/value-or-error")
+	if err != nil || t == nil {
+		return
+	}
+	verif.Reach("accepted")
+	verif.Assert(t.Subject() != nil && t.Predicate() != nil && t.Object() != nil, "C15/triple/well-formed")
+	if t.Predicate().Type() != predicate.Immutable {
+		return
+	}
+	out := t.String()
+	var t2 *triple.Triple
+	var err2 error
+	if !noPanic("C15/triple/reparse-no-panic", func() { t2, err2 = triple.Parse(out, literal.DefaultBuilder()) }) {
+		return
+	}
+	if contains(out, "\"@[") && countOf(out, "\"@[") > 1 || contains(out, "\"^^type:") && countOf(out, "\"^^type:") > 1 {
+		verif.Class("component-text-contains-a-delimiter")
+	}
+	verif.Assert(err2 == nil, "C15/triple/reparse-accepted")
+	if err2 == nil && t2 != nil {
+		verif.Assert(t2.String() == out, "C15/triple/reprint-stable")
+	}
+}
+
+func countOf(s, sub string) int {
+	n := 0
+	for i := 0; i+len(sub) <= len(s); i++ {
+		if s[i:i+len(sub)] == sub {
+			n++
+		}
+	}
+	return n
+}
